@@ -757,6 +757,67 @@ def cteAssembly (nx : Nat) (c a : Id) : List BOp :=
   [.new nx "cte" false, .set nx "this" (.node a), .new (nx + 1) "with" false,
    .set (nx + 1) "expressions" (.list [.node nx]), .set c "with_" (.node (nx + 1))]
 
+/-! ### iterators and finders (`root`, `depth`, `find_ancestor`, `unnest`, `dfs` / `bfs` / `walk` with `prune`, `find_all`) -/
+
+/-- `root()`: `while expression.parent: expression = expression.parent` -/
+def rootOf : Nat → Heap H → Id → Option Id
+  | 0, _, _ => none
+  | f + 1, h, n =>
+    match (h n).parent with
+    | none => some n
+    | some p => rootOf f h p
+
+/-- the parent-pointer chain of `n`, nearest first -/
+def ancestors : Nat → Heap H → Id → Option (List Id)
+  | 0, _, _ => none
+  | f + 1, h, n =>
+    match (h n).parent with
+    | none => some []
+    | some p => (ancestors f h p).map (p :: ·)
+
+/-- the `depth` property: `self.parent.depth + 1 if self.parent else 0` -/
+def depthOf : Nat → Heap H → Id → Option Nat
+  | 0, _, _ => none
+  | f + 1, h, n =>
+    match (h n).parent with
+    | none => some 0
+    | some p => (depthOf f h p).map (· + 1)
+
+/-- `find_ancestor(*types)`: `ancestor = self.parent; while ancestor and not isinstance(ancestor, types): ancestor = ancestor.parent` -/
+def findAncestorLoop (P : String → Bool) : Nat → Heap H → Option Id → Option (Option Id)
+  | 0, _, _ => none
+  | _ + 1, _, none => some none
+  | f + 1, h, some a => if P (h a).cls then some (some a) else findAncestorLoop P f h (h a).parent
+
+def opFindAncestor (P : String → Bool) (fuel : Nat) (h : Heap H) (n : Id) : Option (Option Id) :=
+  findAncestorLoop P fuel h (h n).parent
+
+/-- `unnest()`: `while type(expression) is Paren: expression = expression.this` (`this` may be missing: `None`) -/
+def unnestOf : Nat → Heap H → Id → Option (Option Id)
+  | 0, _, _ => none
+  | f + 1, h, n =>
+    if (h n).cls = "paren" then
+      match getKey "this" (h n).args with
+      | some (.one c) => unnestOf f h c
+      | _ => some none
+    else some (some n)
+
+/-- `dfs(prune)` (explicit stack, children pushed in reverse = visited in arg order) and `bfs(prune)` (queue): the node is
+    yielded first; a pruned node's children are not scheduled -/
+def walkLoop (bfs : Bool) (prune : Id → Bool) : Nat → Heap H → List Id → List Id → Option (List Id)
+  | _, _, [], acc => some acc.reverse
+  | 0, _, _ :: _, _ => none
+  | f + 1, h, n :: st, acc =>
+    let kids := if prune n then [] else childIds (h n).args
+    walkLoop bfs prune f h (if bfs then st ++ kids else kids ++ st) (n :: acc)
+
+def opWalk (bfs : Bool) (prune : Id → Bool) (fuel : Nat) (h : Heap H) (root : Id) : Option (List Id) :=
+  walkLoop bfs prune fuel h [root] []
+
+/-- `find_all(*types, bfs)` -/
+def opFindAll (bfs : Bool) (P : String → Bool) (fuel : Nat) (h : Heap H) (root : Id) : Option (List Id) :=
+  (opWalk bfs (fun _ => false) fuel h root).map (·.filter (fun n => P (h n).cls))
+
 /-! ### histories -/
 
 inductive Op where
